@@ -24,7 +24,7 @@ def exFlash : Flash :=
               masterStart := 128, eraseSize := 0,
               regs := ⟨4, 4⟩ :: ⟨1, 3⟩ :: exUnused, master := [0,0,0,0,0,0,0,0,0,0,0,0] },
     regions := [⟨.idx 1, .me (some [⟨0x40, 0x1000⟩]) 0x1040, ffs 12288⟩,
-                ⟨.idx 0, .bios 4096 [⟨true, 0, ffs 4096, 0xFF⟩], ffs 4096⟩],
+                ⟨.idx 0, .bios 4096 [⟨true, 0, ffs 4096, 0xFF, false⟩], ffs 4096⟩],
     size := 20480, buf := [] }
 
 theorem exFlash_wf : WF exFlash := by
@@ -87,8 +87,8 @@ theorem exFlash_wf : WF exFlash := by
 theorem exFlash_tightens : ∃ f', tighten 0xFF exFlash = .ok f' := by
   refine ⟨_, tighten_of 0xFF exFlash 0 1
     ⟨.idx 1, .me (some [⟨0x40, 0x1000⟩]) 0x1040, ffs 12288⟩
-    ⟨.idx 0, .bios 4096 [⟨true, 0, ffs 4096, 0xFF⟩], ffs 4096⟩
-    (some [⟨0x40, 0x1000⟩]) 0x1040 4096 [⟨true, 0, ffs 4096, 0xFF⟩] ⟨1, 3⟩ ⟨4, 4⟩
+    ⟨.idx 0, .bios 4096 [⟨true, 0, ffs 4096, 0xFF, false⟩], ffs 4096⟩
+    (some [⟨0x40, 0x1000⟩]) 0x1040 4096 [⟨true, 0, ffs 4096, 0xFF, false⟩] ⟨1, 3⟩ ⟨4, 4⟩
     rfl rfl rfl rfl rfl rfl rfl rfl rfl ?_ ?_⟩
   · have : bufOffset (FRegion.baseOff ⟨1, 3⟩) 0x1040 = 8192 := by decide
     rw [this]; simp
